@@ -102,7 +102,6 @@ Section Repl.
   Variable parse : string -> option re.
   Variable enc : node -> string.
   Variable nonstr : string -> bool.
-  Variable cluster_scoped : gvk -> bool.
   Variable lsel : string -> list (string * string) -> option bool.
   Variable fuel : nat.
 
@@ -112,7 +111,7 @@ Section Repl.
     | [] => match found with Some n => Ok n | None => Err end
     | n :: t =>
         do ids <- make_res_ids n;
-        if existsb (fun id => id_selected_by cluster_scoped id sel) ids then
+        if existsb (fun id => id_selected_by id sel) ids then
           match found with
           | Some _ => Err
           | None => select_source sel t (Some n)
@@ -165,11 +164,11 @@ Section Repl.
   (* containsRejectId *)
   Definition contains_reject_id (rej : list selector) (ids : list resid) : bool :=
     existsb (fun r => negb (id_is_empty (sel_id r)) &&
-                      existsb (fun id => id_selected_by cluster_scoped id (sel_id r)) ids) rej.
+                      existsb (fun id => id_selected_by id (sel_id r)) ids) rej.
 
   (* the ids test of applyReplacement: some id is selected, and no id is rejected *)
   Definition target_selected (sel : selector) (rej : list selector) (ids : list resid) : bool :=
-    existsb (fun id => id_selected_by cluster_scoped id (sel_id sel)) ids && negb (contains_reject_id rej ids).
+    existsb (fun id => id_selected_by id (sel_id sel)) ids && negb (contains_reject_id rej ids).
 
   (* write the value through every hit of one PathMatcher run *)
   Fixpoint write_hits (opts : option field_options) (value : node) (hits : list hit) (target : node) : res node :=
